@@ -144,7 +144,21 @@ def registry(rng, srng=None):
     add('evaluation.accuracy_knee', ev.accuracy_knee, pts, knees)
     add('evaluation.get_neighbourhood', ev.get_neighbourhood, x, y, n - 2, 1)
     add('evaluation.get_neighbourhood_fast', ev.get_neighbourhood_fast, x, y, n - 2, 1)
-    return R
+    # option sweep: every member of every Enum-valued option (metric, distance, order, fit, refinement, strategy, ranking mode, R2 kind, …)
+    import enum, inspect
+    extra = []
+    for name, f, args, kw in R:
+        try:
+            sig = inspect.signature(getattr(f, 'py_func', f))
+        except (TypeError, ValueError):
+            continue
+        params = list(sig.parameters)
+        for pn, prm in sig.parameters.items():
+            if isinstance(prm.default, enum.Enum) and pn not in kw and params.index(pn) >= len(args):
+                for member in type(prm.default):
+                    if member is not prm.default:
+                        extra.append((f'{name}[{pn}={member.name}]', f, list(args), dict(kw, **{pn: member})))
+    return R + extra
 
 
 def same(a, b):
